@@ -328,6 +328,30 @@ def _systematic():
   return out
 
 
+def _interleaved():
+  """Several holders of equal sources writing interleaved, with REPEATED values (A-B-A): a holder that
+  caches what it wrote last must not swallow a write that another holder made necessary; same for
+  counters (repeated equal increments) and samples."""
+  out = []
+  holders = ['same', 'reuse', 'fresh']
+  styles = ['inst', 'cls', 'recv']
+  for k in ('gauge', 'counter', 'rate', 'timer'):
+    for h2 in holders:
+      for s1 in styles:
+        for s2 in styles:
+          for (v1, v2) in ((5, 3), (2, 2), (7, 1)):
+            def op(o, style, v):
+              if k == 'gauge':
+                return ['set', 0, 0, o, style, v]
+              if k == 'timer':
+                return ['sample', 0, 0, o, style, v, 0.05]
+              return ['inc', 0, 0, o, style, v]
+            ops = [op('same', s1, v1), op(h2, s2, v2), op('same', s1, v1), ['agg', 'tuple'],
+                   op(h2, s2, v2), op(h2, s2, v2), op('same', s1, v1), ['agg', 'tuple'], ['agg', 'default']]
+            out.append({'mode': 'api', 'kinds': [k], 'srcs': [TUPLE_POOL[0], TUPLE_POOL[1]], 'cap': 1000, 'ops': ops})
+  return out
+
+
 def _gen_e2e(rng):
   calls = []
   for _ in range(rng.randint(2, 12)):
@@ -341,7 +365,7 @@ def _gen_e2e(rng):
 
 def cases(prop, tier, seed):
   rng = random.Random(1000003 * int(seed) + 18)
-  out = _systematic()
+  out = _systematic() + _interleaved()
   n_api, n_e2e = (900, 250) if tier == 'quick' else (8000, 1500)
   for _ in range(n_api):
     out.append(_gen_api(rng))
